@@ -276,9 +276,17 @@ func evalC20(c c20Case, o *Obs) error {
 				defer wg.Done()
 				defer c20Recover(panicCh)
 				<-start
+				scratch := make([]byte, 0, 2048) // this goroutine's own buffer: every item it hands to the filter travels in it
 				for i, in := range inputs[g] {
 					ev := &events[g][i]
 					ev.g, ev.i, ev.op = g, i, in.op
+					if (in.op.Op == "add" || in.op.Op == "matches") && len(in.data) <= cap(scratch) && g%2 == 0 {
+						for k := range scratch[:cap(scratch)] {
+							scratch[:cap(scratch)][k] = 0xee // what the previous call was given is gone
+						}
+						scratch = append(scratch[:0], in.data...)
+						in.data = scratch
+					}
 					ev.call = int64(time.Since(t0))
 					switch in.op.Op {
 					case "isloaded":
